@@ -622,7 +622,12 @@ class Parser:
             stream.next_token()
             for flag in set(stream.current.value):
                 flags |= self.RE_FLAG_MAP[flag]
-        return RegexLiteral(value=re.compile(pattern, flags))
+        try:
+            return RegexLiteral(value=re.compile(pattern, flags))
+        except re.error as err:
+            raise JSONPathSyntaxError(
+                f"invalid regular expression: {err}", token=stream.current
+            ) from err
 
     def parse_list_literal(self, stream: TokenStream) -> FilterExpression:
         stream.next_token()
